@@ -2,6 +2,7 @@
 // cases and prints one canonical line per case: "<family>\t<input>\t<impl result>".
 // The extracted Coq model (extract/driver) reads these lines and reports disagreements.
 mod fam_lex;
+mod fam_lit;
 mod fam_pk;
 mod fam_sema;
 mod fam_semt;
@@ -23,6 +24,7 @@ fn main() {
         "types" => fam_types::run(rest),
         "symtab" => fam_symtab::run(rest),
         "lex" => fam_lex::run(rest),
+        "lit" => fam_lit::run(rest),
         "pk" => fam_pk::run(rest),
         "tree" => fam_tree::run(rest),
         "sema" => fam_sema::run(rest),
